@@ -37,7 +37,7 @@
 /* -------------------------------------------------------------- allocator */
 
 struct vp_alloc_state {
-    unsigned allocs, frees, outstanding;
+    unsigned allocs, granted, frees, outstanding;
     bool double_free, foreign_free;
     bool fail_next[4]; /* script: does allocation k fail? */
     uint8_t garbage[8]; /* a fresh block holds arbitrary octets (pattern repeated) */
@@ -63,6 +63,7 @@ static int vp_alloc(void *driver, void **m, size_t n)
         return -ENOMEM;
     }
     vp_al.outstanding = 1;
+    vp_al.granted++;
 #ifdef VP_REPLAY
     vp_block_ptr = malloc(BLOCKSIZE); /* exact extent for ASan */
     *m = vp_block_ptr;
